@@ -113,15 +113,20 @@ func zzSpecAccept(cfg *zzCfg, hasDot bool, k, s string) bool {
 
 // zzConfig chooses the secret configuration: global secret of one of the five lengths,
 // 0..2 rotated secrets; "alias" makes the first rotated secret share its first 32 bytes with the global one.
+// quick: hash function default, rotated lengths {31,32,40} for the first and 32 for the second rotated secret;
+// thorough (full): three hash functions, all five lengths for every secret.
 func zzConfig(full bool) *zzCfg {
-	cfg := &zzCfg{hasher: zzHasherChoice()}
+	cfg := &zzCfg{}
+	if full {
+		cfg.hasher = zzHasherChoice()
+	}
 	cfg.global = zzKey(0, zzKeyLens[zz.Choice("globalLen", len(zzKeyLens))])
 	nrot := zz.Choice("nrot", 3)
 	for i := 0; i < nrot; i++ {
-		var l int
+		l := 32
 		if full {
 			l = zzKeyLens[zz.Choice("rotLen", len(zzKeyLens))]
-		} else {
+		} else if i == 0 {
 			l = []int{31, 32, 40}[zz.Choice("rotLen", 3)]
 		}
 		idx := i + 1
